@@ -23,21 +23,38 @@ def demo():
     r = sh("cd %s && rm -rf demo && cp -r %s/demo demo && WT=%s bash demo/run.sh" % (slot, sd, slot), timeout=3600)
     return r.returncode, (r.stdout + r.stderr)[-600:]
 
-sh("git -C %s checkout -- . && git -C %s clean -fdq -e _build" % (slot, slot))
-rc, out = demo()
-res["demo_unchanged_rc"] = rc
-r = sh("cd %s && patch -p1 < %s" % (slot, patch))
-res["patch_applies"] = r.returncode == 0
-if r.returncode == 0:
-    b = sh("ninja -C %s/_build -k 0 -j 8 2>&1 | grep -c FAILED" % slot, timeout=7200)
+applied = "--applied" in sys.argv      # the change is still applied (and built) in the slot the sub-agent used
+if applied:
+    d = sh("git -C %s diff -- bluetoe | diff -q - %s" % (slot, patch))
+    res["slot_diff_equals_patch"] = d.returncode == 0
+    b = sh("ninja -C %s/_build -k 0 -j 8 2>&1 | grep -c FAILED" % slot, timeout=10800)
     res["ninja_failed_targets"] = int((b.stdout or "0").strip() or 0)
-    t = sh("cd %s/_build && ctest -j6 2>&1 | grep -E 'tests passed|Failed|\\*\\*\\*Failed' | head -5" % slot, timeout=7200)
+    t = sh("cd %s/_build && ctest -j6 2>&1 | grep -E 'tests passed|\\*\\*\\*Failed' | head -5" % slot, timeout=7200)
     res["ctest"] = t.stdout.strip()
     rc2, out2 = demo()
     res["demo_patched_rc"] = rc2
     res["demo_patched_tail"] = out2
-sh("git -C %s checkout -- . && git -C %s clean -fdq -e _build" % (slot, slot))
-sh("ninja -C %s/_build -k 0 -j 8" % slot, timeout=7200)
+    sh("git -C %s checkout -- . && git -C %s clean -fdq -e _build" % (slot, slot))
+    sh("ninja -C %s/_build -k 0 -j 8" % slot, timeout=10800)
+    rc, out = demo()
+    res["demo_unchanged_rc"] = rc
+    sh("git -C %s clean -fdq -e _build" % slot)
+else:
+    sh("git -C %s checkout -- . && git -C %s clean -fdq -e _build" % (slot, slot))
+    rc, out = demo()
+    res["demo_unchanged_rc"] = rc
+    r = sh("cd %s && patch -p1 < %s" % (slot, patch))
+    res["patch_applies"] = r.returncode == 0
+    if r.returncode == 0:
+        b = sh("ninja -C %s/_build -k 0 -j 8 2>&1 | grep -c FAILED" % slot, timeout=10800)
+        res["ninja_failed_targets"] = int((b.stdout or "0").strip() or 0)
+        t = sh("cd %s/_build && ctest -j6 2>&1 | grep -E 'tests passed|\\*\\*\\*Failed' | head -5" % slot, timeout=7200)
+        res["ctest"] = t.stdout.strip()
+        rc2, out2 = demo()
+        res["demo_patched_rc"] = rc2
+        res["demo_patched_tail"] = out2
+    sh("git -C %s checkout -- . && git -C %s clean -fdq -e _build" % (slot, slot))
+    sh("ninja -C %s/_build -k 0 -j 8" % slot, timeout=10800)
 c = sh("cd %s && python3 tools/try_patch.py %s %s" % (HERE, patch, " ".join(props)), timeout=14400)
 res["checks_output"] = [l[:400] for l in c.stdout.splitlines() if l.startswith(("==", "VIOLATION", "INCONCLUSIVE", "KNOWN"))][:40]
 res["caught_by"] = sorted({l.split()[1] for l in c.stdout.splitlines() if l.startswith("== ") and "rc=1" in l})
